@@ -1372,22 +1372,29 @@ static void sweep(char **t, int ntok)
 		cfg_free(cfg);
 		reset_slots(sch);
 		vf_lex_snapshot(&ls);
-		clean = !(ls.yy_start > 1 || ls.has_buffer || ls.inc_ptr || ls.have_q || vf_live_blocks(-1) || vf_live_files() ||
-			  pv_live || pv_badrel || vf_foreign_free || vf_double_close || stdout_bytes() != 0);
-		ncase++;
-		if (rc == 0) rc0++; else if (rc == 1) rc1++; else rco++;
-		hash = (hash ^ (unsigned long)(rc + 2)) * 1099511628211UL;
-		if (!clean || rc2 != 0 || (rc != 0 && rc != 1) || (rc == 1 && sweep_diags == 0)) {
-			nanom++;
-			fprintf(out, "anom %s rc=%d rc2=%d diags=%lu lex=%d,%d,%d,%d blocks=%zu files=%zu ptr=%ld,%ld foreign=%lu stdout=%ld text=",
-				progress, rc, rc2, sweep_diags, ls.yy_start, ls.has_buffer, ls.inc_ptr, ls.have_q, vf_live_blocks(-1), vf_live_files(),
-				pv_live, pv_badrel, vf_foreign_free, stdout_bytes());
-			enc_n(out, text, tl);
-			fputc('\n', out);
-			if (!clean) {
-				/* the process is no longer pristine: stop here, the explorer resumes in a fresh process */
-				fprintf(out, "swept n=%lu rc0=%lu rc1=%lu rcother=%lu hash=%lx anom=%lu STOPPED\n", ncase, rc0, rc1, rco, hash, nanom);
-				goto done;
+		{
+			size_t blocks = vf_live_blocks(-1);
+			long so = stdout_bytes();
+			int leak = blocks != 0;
+			/* conditions after which this process cannot be trusted any more */
+			clean = !(ls.yy_start > 1 || ls.has_buffer || ls.inc_ptr || ls.have_q || vf_live_files() ||
+				  pv_badrel || vf_foreign_free || vf_double_close);
+			ncase++;
+			if (rc == 0) rc0++; else if (rc == 1) rc1++; else rco++;
+			hash = (hash ^ (unsigned long)(rc + 2)) * 1099511628211UL;
+			if (!clean || leak || pv_live || so != 0 || rc2 != 0 || (rc != 0 && rc != 1) || (rc == 1 && sweep_diags == 0)) {
+				nanom++;
+				fprintf(out, "anom %s rc=%d rc2=%d diags=%lu lex=%d,%d,%d,%d blocks=%zu files=%zu ptr=%ld,%ld foreign=%lu stdout=%ld text=",
+					progress, rc, rc2, sweep_diags, ls.yy_start, ls.has_buffer, ls.inc_ptr, ls.have_q, blocks, vf_live_files(),
+					pv_live, pv_badrel, vf_foreign_free, so);
+				enc_n(out, text, tl);
+				fputc('\n', out);
+				if (so != 0) { if (ftruncate(stdout_memfd, 0)) {} lseek(stdout_memfd, 0, SEEK_SET); }
+				if (!clean || leak || pv_live) {
+					/* the process is no longer pristine: stop here, the explorer resumes in a fresh process */
+					fprintf(out, "swept n=%lu rc0=%lu rc1=%lu rcother=%lu hash=%lx anom=%lu STOPPED\n", ncase, rc0, rc1, rco, hash, nanom);
+					goto done;
+				}
 			}
 		}
 advance:
